@@ -494,6 +494,12 @@ func F4Oids(c *Case) [][]byte {
 		}
 	}
 	out = append(out, Oid("absent", hs))
+	// below every id and above every id (the lookup runs off either end of the object index)
+	lo, hi := make([]byte, hs), make([]byte, hs)
+	for i := range hi {
+		hi[i] = 0xff
+	}
+	out = append(out, lo, hi)
 	if len(out) > 1 {
 		near := append([]byte{}, out[0]...)
 		near[hs-1] ^= 1
